@@ -79,7 +79,8 @@ class Variation:
 
     def __init__(self, rng=None, *, st_perm=None, sess_perm=None, shift=0, evse_kinds=None, dict_shuffle=True,
                  vtypes=True, constraints="none", con_perm=False, mutate=False, twostage=False,
-                 store_hist=True, est_seed=0, verbose=False, queue_form="ctor", late_scheduler=False):
+                 store_hist=True, est_seed=0, verbose=False, queue_form="ctor", late_scheduler=False, np_ints=False,
+                 aware_start=False):
         self.rng = rng or random.Random(0)
         self.st_perm, self.sess_perm, self.shift = st_perm, sess_perm, shift
         self.evse_kinds = evse_kinds
@@ -89,6 +90,8 @@ class Variation:
         self.est_seed = est_seed
         # how the simulator is put together (documented alternatives; none may matter)
         self.verbose, self.queue_form, self.late_scheduler = verbose, queue_form, late_scheduler
+        self.np_ints = np_ints          # arrivals / departures / event timestamps as numpy integers
+        self.aware_start = aware_start  # Simulator.start carries a time zone (the clock is compared by its wall time)
 
     def describe(self):
         return {k: v for k, v in self.__dict__.items() if k != "rng"}
@@ -196,6 +199,8 @@ def make_queue(events, form, rng):
     two batches, add_event one by one (in list order or shuffled)."""
     if form == "ctor":
         return EventQueue(events)
+    if form == "generator":     # a one-shot iterator instead of a list
+        return EventQueue(e for e in list(events))
     if form == "restored":      # the queue of the scenario, written to JSON and loaded back before the simulation
         return EventQueue.from_json(EventQueue(events).to_json())
     if form == "reused":        # a queue object with a past: it served later periods before, was drained, is refilled
@@ -273,6 +278,10 @@ class Replay:
     # ---- construction -----------------------------------------------------------------
     def _build(self):
         st, var = self.start, self.var
+        self.start_dt = START
+        if var.aware_start:
+            import pytz
+            self.start_dt = pytz.timezone("America/Los_Angeles").localize(START)
         self.net = build_network(st, var)
         self.net._verif_cb = self.on_post_charging
         sess = st["sess"]
@@ -291,25 +300,36 @@ class Replay:
             if est <= x["arr"]:
                 est = x["dep"]
             self.est[i0 + 1] = est + self.k
-            ev = EV(x["arr"] + self.k, x["dep"] + self.k, x["req"] / KWH, sid(x["st"]), vid(i0 + 1),
-                    make_battery(x, var, i0), estimated_departure=est + self.k)
+            I = (lambda v: np.int64(v)) if var.np_ints and i0 % 2 == 0 else int
+            ev = EV(I(x["arr"] + self.k), I(x["dep"] + self.k), x["req"] / KWH, sid(x["st"]), vid(i0 + 1),
+                    make_battery(x, var, i0), estimated_departure=I(est + self.k))
             self.evs[i0 + 1] = ev
-            events.append(PluginEvent(x["arr"] + self.k, ev))
-        rec = [RecomputeEvent(r + self.k) for r in st["recomp"]]
+            events.append(PluginEvent(I(x["arr"] + self.k), ev))
+        rec = [RecomputeEvent(np.int64(r + self.k) if var.np_ints else r + self.k) for r in st["recomp"]]
         if var.sess_perm:
             var.rng.shuffle(rec)
             events = rec + events
         else:
             events = events + rec
         self.sched = ScriptedScheduler(self, st["mr"])
-        queue = make_queue(events, var.queue_form, var.rng)
+        late_events = []
+        if var.queue_form == "after_ctor" and len(events) > 1:
+            # the simulator is built on a queue that holds only the earliest event; the rest is queued afterwards
+            # (before run() is called): arrays allocated at construction have to grow
+            first = min(events, key=lambda e: (e.timestamp, e.precedence))
+            late_events = [e for e in events if e is not first]
+            queue = EventQueue([first])
+        else:
+            queue = make_queue(events, "ctor" if var.queue_form == "after_ctor" else var.queue_form, var.rng)
         if var.late_scheduler:      # built without a scheduler, which is attached afterwards (update_scheduler)
-            self.sim = Simulator(self.net, None, queue, START, period=self.T, verbose=var.verbose,
+            self.sim = Simulator(self.net, None, queue, self.start_dt, period=self.T, verbose=var.verbose,
                                  store_schedule_history=var.store_hist)
             self.sim.update_scheduler(self.sched)
         else:
-            self.sim = Simulator(self.net, self.sched, queue, START, period=self.T, verbose=var.verbose,
+            self.sim = Simulator(self.net, self.sched, queue, self.start_dt, period=self.T, verbose=var.verbose,
                                  store_schedule_history=var.store_hist)
+        if late_events:
+            self.sim.event_queue.add_events(late_events)
 
     # ---- helpers ----------------------------------------------------------------------
     def _next(self, *kinds):
@@ -344,10 +364,11 @@ class Replay:
     def impl_evhist(self):
         out = []
         for e in self.sim.event_history:
+            ts = int(e.timestamp)       # (timestamps may be numpy integers: a variation of the replay)
             if e.event_type == "Recompute":
-                out.append(("Recompute", e.timestamp - self.k, 100 + e.timestamp - self.k))
+                out.append(("Recompute", ts - self.k, 100 + ts - self.k))
             else:
-                out.append((e.event_type, e.timestamp - self.k, self._session_index(e.ev)))
+                out.append((e.event_type, ts - self.k, self._session_index(e.ev)))
         return out
 
     def peak_spec(self, peakN):
@@ -409,16 +430,26 @@ class Replay:
         self._chk("C01", "queue_len@sched", obs["qlen"], len(self.sim.event_queue))
         # C05: what the scheduler observes
         self._chk("C05", "current_time", t, iface.current_time)
-        self._chk("C05", "current_datetime", START + timedelta(minutes=self.T) * t, iface.current_datetime)
+        # (wall clock: the JSON format stores the start without its zone, by design of its strftime format)
+        self._chk("C05", "current_datetime", START + timedelta(minutes=self.T) * t,
+                  iface.current_datetime.replace(tzinfo=None))
         act = obs["active"] if isinstance(obs["active"], list) else []
         seen_ids = sorted(self._session_index_from_id(s.session_id) for s in active_sessions)
-        self._chk("C05", "active_sessions", sorted(act), seen_ids)
+        if self.compare_energy:
+            self._chk("C05", "active_sessions", sorted(act), seen_ids)
+        else:
+            # which connected sessions still need energy depends on the battery law, which the specification predicts
+            # for the ideal battery only: here the sessions shown must at least all be connected ones
+            connected = sorted(i for i in obs["occ"] if i)
+            self._chk("C05", "active_sessions (subset of the connected sessions)", connected, seen_ids,
+                      set(seen_ids) <= set(connected))
         evE, lastE, lastP = obs["evE"], obs["lastE"], obs["lastP"]
         evE = dict(zip(sorted(act), evE)) if isinstance(evE, list) else idx_map(evE)
         lastE = dict(zip(sorted(act), lastE)) if isinstance(lastE, list) else idx_map(lastE)
         sess = self.start["sess"]
         rates = iface.last_actual_charging_rate
-        self._chk("C05", "last_actual_charging_rate.keys", sorted(vid(i) for i in act), sorted(rates))
+        if self.compare_energy:
+            self._chk("C05", "last_actual_charging_rate.keys", sorted(vid(i) for i in act), sorted(rates))
         for s in active_sessions:
             i = self._session_index_from_id(s.session_id)
             x = sess[i - 1]
@@ -452,7 +483,7 @@ class Replay:
             lastP = dict(zip(keys, lastP))
         else:
             lastP = idx_map(lastP)
-        if not self.k:
+        if not self.k and self.compare_energy:
             self._chk("C05", "last_applied_pilot_signals.keys", sorted(vid(i) for i in lastP), sorted(lp))
             for i, p in lastP.items():
                 self._chk("C05", "last_applied_pilot_signals", p / self.pu, lp[vid(i)], close(lp[vid(i)], p / self.pu))
@@ -623,6 +654,21 @@ class Replay:
             ev = sim.network.get_ev(sid(s))
             self._chk("C01", "network.get_ev[%s].station_id@%d" % (sid(s), t), sid(s) if r["occ"][s - 1] else None,
                       ev.station_id if ev is not None else None)
+        # the ledger across the three separately stored quantities, for ANY battery model (no spec value needed):
+        # EV energy = sum of recorded rate * V * T over its connected periods = charge gained by its battery
+        if not hasattr(self, "_acc"):
+            self._acc = {}
+        for s in range(1, self.ns + 1):
+            i = r["occ"][s - 1]
+            if i:
+                self._acc[i] = self._acc.get(i, 0.0) + float(sim.charging_rates[self.row(s), t]) * self.volt[s - 1] * self.T
+        for i, e_rates in self._acc.items():
+            ev = self.live_ev(i)
+            self._chk("C02", "ledger: energy_delivered vs recorded rates[%d]@%d" % (i, t), e_rates, ev.energy_delivered * KWH,
+                      close(ev.energy_delivered * KWH, e_rates, rel=1e-9, abs_=1e-6))
+            gained = (ev._battery._current_charge - ev._battery._init_charge) * KWH
+            self._chk("C02", "ledger: battery gain vs energy_delivered[%d]@%d" % (i, t), ev.energy_delivered * KWH, gained,
+                      close(gained, ev.energy_delivered * KWH, rel=1e-9, abs_=1e-6))
         if self.compare_energy:
             sess = self.start["sess"]
             want_active = sorted(sid(sess[i - 1]["st"]) for i in r["occ"] if i and sess[i - 1]["req"] - r["evE"][i - 1] > 60)
@@ -666,7 +712,7 @@ class Replay:
     # ---- state projection used for "nothing changed" comparisons ----------------------------
     def snapshot(self):
         sim = self.sim
-        q = sorted((ts, e.event_type, e.ev.session_id if hasattr(e, "ev") else "") for ts, e in sim.event_queue.queue)
+        q = sorted((int(ts), e.event_type, e.ev.session_id if hasattr(e, "ev") else "") for ts, e in sim.event_queue.queue)
         evs = {}
         for i in self.evs:
             ev = self.live_ev(i)
@@ -946,7 +992,7 @@ def final_outputs(bhv, var=None):
         j = rp.row(s)
         out[sid(s)] = (sim.pilot_signals[j].tolist(), sim.charging_rates[j].tolist())
     en = {i: rp.live_ev(i).energy_delivered for i in rp.evs}
-    return {"stations": out, "energy": en, "t": sim.iteration, "peak": float(sim.peak),
+    return {"stations": out, "energy": en, "t": int(sim.iteration), "peak": float(sim.peak),
             "evhist": rp.impl_evhist()}
 
 
@@ -966,7 +1012,7 @@ class StepReplay(Replay):
         if mr:
             sched = BaseAlgorithm()
             sched.max_recompute = mr
-        self.sim = Simulator(self.net, sched, self.sim.event_queue, START, period=self.T, verbose=self.var.verbose,
+        self.sim = Simulator(self.net, sched, self.sim.event_queue, self.start_dt, period=self.T, verbose=self.var.verbose,
                              store_schedule_history=self.var.store_hist)
 
     def run(self):
